@@ -1,7 +1,7 @@
 //! deno.json parser
 
 use crate::parser::traits::{ParseError, Parser};
-use crate::parser::types::{PackageInfo, RegistryType};
+use crate::parser::types::{PackageInfo, RegistryType, is_closed_string};
 use tracing::warn;
 
 /// Parser for deno.json files
@@ -123,6 +123,11 @@ impl DenoJsonParser {
             };
 
             if value_node.kind() != "string" {
+                continue;
+            }
+
+            // A value whose closing quote has not been typed yet is not a specifier
+            if !is_closed_string(&content[value_node.byte_range()]) {
                 continue;
             }
 
